@@ -116,6 +116,8 @@ func errClass(err error) int {
 		return 2
 	case strings.Contains(m, "maximum decoding depth exceeded"):
 		return 4
+	case strings.Contains(m, "uint64 to int64 overflow"):
+		return 3
 	}
 	return 8
 }
@@ -511,8 +513,17 @@ func (h *H) refStream(n int) [][]byte {
 			depthLimit = do.MaxDepth
 		}
 		if it.Depth() >= depthLimit {
-			if errClass(o.err) != 4 {
+			if c := errClass(o.err); c != 4 && !(c == 3 && do.SignedInteger && hasBigUnsigned(it)) {
 				h.sum.FailC("ref", "c14:depth-not-enforced", "nesting at or beyond MaxDepth was not rejected with the depth error", cj)
+			}
+			return
+		}
+		if do.SignedInteger && hasBigUnsigned(it) {
+			// int64 cannot hold the value: the only acceptable outcome is the overflow error (fix 3c4765d)
+			if errClass(o.err) != 3 {
+				cj["decoded"] = dump.Short()
+				cj["err"] = errClass(o.err)
+				h.sum.FailC("ref", "signedint:msgpack:uint>=2^63->int64", "SignedInteger: an unsigned integer >= 2^63 was not rejected with the overflow error", cj)
 			}
 			return
 		}
@@ -525,9 +536,6 @@ func (h *H) refStream(n int) [][]byte {
 		case !SameData(exp, dump) || !sameShape(exp, dump):
 			cj["decoded"] = dump.Short()
 			cls := "c10in:data:" + kindName(it.K)
-			if do.SignedInteger && hasBigUnsigned(it) {
-				cls = "signedint:msgpack:uint>=2^63->int64"
-			}
 			h.sum.FailC("ref", cls, "Decode into interface{} yields data different from what the specification assigns", cj)
 		}
 	}
